@@ -9,7 +9,7 @@ from dataclasses import dataclass, field
 from typing import Any
 
 import eqlmc  # noqa: F401  (puts the library under test on sys.path)
-from entity_query_language import symbol, predicate, Predicate, HasType  # noqa: F401
+from entity_query_language import symbol, predicate, Predicate, HasType, symbolic_mode, let, an, entity  # noqa: F401
 from entity_query_language.symbolic import in_symbolic_mode
 
 
@@ -172,6 +172,17 @@ def p_eq_nested(x, k):
 
 
 @predicate
+def p_eq_inner(x, k):
+    """a user predicate that builds and evaluates a query of its own - with a Predicate subclass written positionally, as
+    inside a query block - in a block of its own"""
+    LOG.hit("p_eq_inner", getattr(x, "tag", x))
+    with symbolic_mode():
+        n = let(Item, [x])
+        inner = an(entity(n, PEq(n, k)))
+    return any(True for _ in inner.evaluate())
+
+
+@predicate
 def val_eq(v, k):
     LOG.hit("val_eq", v)
     return v == k
@@ -197,7 +208,7 @@ class PLt(Predicate):
         return self.x.p < self.y.p
 
 
-PREDICATE_FUNCS = {"p_eq": p_eq, "p_lt": p_lt, "val_eq": val_eq, "p_eq_nested": p_eq_nested}
+PREDICATE_FUNCS = {"p_eq": p_eq, "p_lt": p_lt, "val_eq": val_eq, "p_eq_nested": p_eq_nested, "p_eq_inner": p_eq_inner}
 PREDICATE_CLASSES = {"PEq": PEq, "PLt": PLt, "HasType": HasType}
 
 
